@@ -416,6 +416,30 @@ fn run_handle(v: &Value, out: &mut Vec<String>) {
                 slog::rec(slog::K_MARK, 1, 0, 0, 0, 0, b"drop");
                 drop(w);
             }
+            "pl_stream_stdin_outpipe" => {
+                // the pipeline's stdout is a pipe nobody can read through the write adapter
+                let first = mk(&script);
+                let second = mk(&["wo300000".to_string(), "R".to_string(), "x0".to_string()]);
+                let mut w = (first | second).stdout(Redirection::Pipe).stream_stdin()?;
+                let _ = w.write_all(&vec![b'x'; write_some]);
+                slog::rec(slog::K_MARK, 1, 0, 0, 0, 0, b"drop");
+                drop(w);
+            }
+            "stream_stdin_outpipe" => {
+                let mut w = mk(&script).stdout(Redirection::Pipe).stream_stdin()?;
+                let _ = w.write_all(&vec![b'x'; write_some]);
+                slog::rec(slog::K_MARK, 1, 0, 0, 0, 0, b"drop");
+                drop(w);
+            }
+            "pl_stream_stdout_errpipe" => {
+                // a stage with its own piped stderr inside a pipeline read through the read adapter
+                let first = mk(&script).stderr(Redirection::Pipe);
+                let second = mk(&["R".to_string(), "x0".to_string()]);
+                let mut r = (first | second).stream_stdout()?;
+                rd(&mut r);
+                slog::rec(slog::K_MARK, 1, 0, 0, 0, 0, b"drop");
+                drop(r);
+            }
             "join" => {
                 let _ = mk(&script).stdout(NullFile).join()?;
             }
